@@ -4,6 +4,7 @@
 //!
 //! usage: wfh <stream> <quick|thorough> <seed> <outdir>
 //!        wfh replay <stream> <op line...>       (re-run one op on the implementation)
+mod codec;
 mod out;
 mod rng;
 mod streams;
